@@ -22,22 +22,44 @@ type vCutDB struct {
 	log    []string
 }
 
+// one durable write unit (a single Set/SetSync/Delete, or a whole batch: LevelDB applies a batch
+// atomically) either survives the crash completely or is lost completely
+func (d *vCutDB) unit(n int) bool {
+	if n == 0 {
+		return false
+	}
+	if d.limit >= 0 && d.writes >= d.limit {
+		return false // lost in the crash
+	}
+	d.writes++
+	return true
+}
+
+func (d *vCutDB) apply(k, v []byte, del bool) {
+	d.log = append(d.log, string(k))
+	for i := range d.keys {
+		if bytes.Equal(d.keys[i], k) {
+			if del {
+				d.keys = append(d.keys[:i:i], d.keys[i+1:]...)
+				d.vals = append(d.vals[:i:i], d.vals[i+1:]...)
+			} else {
+				d.vals[i] = v
+			}
+			return
+		}
+	}
+	if !del {
+		d.keys, d.vals = append(d.keys, append([]byte{}, k...)), append(d.vals, v)
+	}
+}
+
 func (d *vCutDB) put(k, v []byte) {
 	if k == nil {
 		return // SetSync(nil,nil) is the flush idiom
 	}
-	if d.limit >= 0 && d.writes >= d.limit {
-		return // lost in the crash
+	if d.unit(1) {
+		d.apply(k, v, false)
 	}
-	d.writes++
-	d.log = append(d.log, string(k))
-	for i := range d.keys {
-		if bytes.Equal(d.keys[i], k) {
-			d.vals[i] = v
-			return
-		}
-	}
-	d.keys, d.vals = append(d.keys, append([]byte{}, k...)), append(d.vals, v)
 }
 func (d *vCutDB) Get(k []byte) []byte {
 	for i := range d.keys {
@@ -49,12 +71,44 @@ func (d *vCutDB) Get(k []byte) []byte {
 }
 func (d *vCutDB) Set(k, v []byte)     { d.put(k, v) }
 func (d *vCutDB) SetSync(k, v []byte) { d.put(k, v) }
-func (d *vCutDB) Delete(k []byte)     {}
-func (d *vCutDB) DeleteSync(k []byte) {}
-func (d *vCutDB) Close()              {}
-func (d *vCutDB) NewBatch() dbm.Batch { return nil }
-func (d *vCutDB) Print()              {}
+func (d *vCutDB) Delete(k []byte) {
+	if d.unit(1) {
+		d.apply(k, nil, true)
+	}
+}
+func (d *vCutDB) DeleteSync(k []byte)    { d.Delete(k) }
+func (d *vCutDB) Close()                 {}
+func (d *vCutDB) NewBatch() dbm.Batch    { return &vCutBatch{db: d} }
+func (d *vCutDB) Print()                 {}
 func (d *vCutDB) Iterator() dbm.Iterator { return nil }
+
+func (d *vCutDB) clone() *vCutDB {
+	c := &vCutDB{limit: -1, writes: d.writes}
+	c.keys = append(c.keys, d.keys...)
+	c.vals = append(c.vals, d.vals...)
+	return c
+}
+
+type vCutOp struct {
+	k, v []byte
+	del  bool
+}
+
+type vCutBatch struct {
+	db  *vCutDB
+	ops []vCutOp
+}
+
+func (b *vCutBatch) Set(k, v []byte) { b.ops = append(b.ops, vCutOp{append([]byte{}, k...), v, false}) }
+func (b *vCutBatch) Delete(k []byte) { b.ops = append(b.ops, vCutOp{append([]byte{}, k...), nil, true}) }
+func (b *vCutBatch) Write() {
+	if b.db.unit(len(b.ops)) {
+		for _, o := range b.ops {
+			b.db.apply(o.k, o.v, o.del)
+		}
+	}
+	b.ops = nil
+}
 
 func vC06Block(height int64, tag byte) (*types.Block, *types.PartSet) {
 	b := &types.Block{Header: &types.Header{ChainID: "c", Height: height, AppHash: []byte{tag}, ValidatorsHash: []byte{1}},
@@ -69,9 +123,14 @@ func VerifHarness_C06_saveblock_crash_cuts() {
 	bs.SaveBlock(b1, p1, &types.Commit{})
 	vAssert(bs.Height() == 1, "store-at-1")
 	w1 := db.writes
-	// block 2 is being saved when the process dies after `cut` of its durable writes
+	// block 2 is being saved when the process dies after `cut` of its durable write units. How many
+	// units SaveBlock issues is measured on an uncrashed twin (a copy of the store), not assumed.
 	b2, p2 := vC06Block(2, 0xB)
-	total := 3 + p2.Total() + 1 // meta, parts, last commit, seen commit, descriptor
+	twinDB := db.clone()
+	twin := NewBlockStore(twinDB, &vCutDB{limit: -1})
+	twin.SaveBlock(b2, p2, &types.Commit{BlockID: types.BlockID{Hash: []byte{0xB}}})
+	total := twinDB.writes - w1
+	vAssert(total >= 2 && twin.Height() == 2, "uncrashed-save-makes-block-2-visible")
 	// counted from the end of the write sequence, so that a model replays natively even though the
 	// real go-wire encoding yields a different number of parts than the engine's abstraction
 	cut := total - vNondetLen("cut-from-end", 0, total)
